@@ -9,7 +9,7 @@ import sys
 import time
 
 VERIF = os.path.dirname(os.path.dirname(os.path.abspath(__file__)))
-MODULES = ["contracts.c04_periods", "contracts.engine", "contracts.c03_requests", "contracts.c06_parameters", "contracts.c16_set_input", "contracts.c13_clone", "contracts.c14_reforms", "contracts.c18_engine", "contracts.c17_storage", "contracts.c15_enums", "contracts.c10_groups", "contracts.c07_views", "contracts.c19_dump", "contracts.c08_taxscales", "contracts.c09_transforms", "contracts.c12_builder"]
+MODULES = ["contracts.c04_periods", "contracts.engine", "contracts.c03_requests", "contracts.c06_parameters", "contracts.c16_set_input", "contracts.c13_clone", "contracts.c14_reforms", "contracts.c18_engine", "contracts.c17_storage", "contracts.c15_enums", "contracts.c10_groups", "contracts.c07_views", "contracts.c19_dump", "contracts.c08_taxscales", "contracts.c09_transforms", "contracts.c12_builder", "contracts.c05_text"]
 
 CAL_THEORY = "calendar (OM/DIM opaque, lemma instances; closed forms = Hinnant days-from-civil), validated against datetime"
 
@@ -44,6 +44,17 @@ PROPS = {
         "not_decided": ["to_average / to_marginal are not under contract (float('Inf') thresholds are outside the list model): bounded stand-in on the real code only",
                         "helpers.combine_tax_scales (parameter-node iteration) is not under contract; it only calls add_tax_scale on a scale starting with (0, 0)",
                         "the decimals option of multiply_thresholds"],
+    },
+    "C05": {
+        "theories": [CAL_THEORY, "format strings: concrete structure, symbolic decimal fields; regular expressions by derivatives over the real patterns"],
+        "lemmas": [],
+        "validations": ["calendar", "pendulum"],
+        "assumptions": [
+            "years (calendar and ISO) 1000..9999: four digits, as the statement says",
+            "pendulum.parse(text, exact=True) on the five ISO shapes: the date named, ParserError when it does not exist (assumed, validated natively)",
+            "decimal rendering: format(n, '02d') / str(n) of a non-negative integer; int() of a numeral; str.split / lower / upper on ASCII",
+        ],
+        "not_decided": [],
     },
     "C12": {
         "theories": ["period keys as an uninterpreted sort with CANON = str o period (idempotent); buffers as maps from keys to arrays"],
